@@ -871,6 +871,19 @@ Proof.
     lia.
 Qed.
 
+(* on every state a history can reach, without side conditions *)
+Theorem remove_stage_reachable : forall w now sender id w',
+  reachable w -> step w now (RemoveStage sender id) = Ok w' ->
+  let k := N.to_nat id in
+  (exists s, nth_error (w_stages w) k = Some s /\ now < s_start s) /\
+  w_stages w' = firstn k (w_stages w) /\
+  (forall st a, (k <= st)%nat -> mem_get (w_mem w') st a = None) /\
+  (forall st a, (st < k)%nat -> mem_get (w_mem w') st a = mem_get (w_mem w) st a).
+Proof.
+  intros w now sender id w' R H. destruct (reachable_inv w R) as [_ MI].
+  destruct (remove_stage_spec _ _ _ _ _ H MI) as [A [B [_ [C [D _]]]]]. cbv zeta. auto.
+Qed.
+
 (* ---------- fixtures for the Examples of props/C13.v ---------- *)
 Definition T : N := 1647032401000000000.
 Definition st3 : list stage :=
